@@ -3,6 +3,7 @@
 package verifrt
 
 import (
+	"reflect"
 	"runtime"
 	"unsafe"
 )
@@ -18,3 +19,40 @@ func raceEnable()                       { runtime.RaceEnable() }
 
 // RaceErrors returns the number of races reported so far.
 func RaceErrors() int { return runtime.RaceErrors() }
+
+// markReleased makes "used after being handed back to its pool" a race the detector cannot miss: a
+// helper goroutine (happens-after the Put, like everything the putter did before) declares a write to
+// the whole object and publishes it to the next Get only. Whatever the previous owner does to the object
+// after its Put has no happens-before relation with that write. Nothing is really written. Without this
+// the detector has to find the conflict between the late access and what the NEXT owner does, many
+// accesses later, and its shadow cells (four per word, replaced at random) often have forgotten by then.
+func markReleased(x any, sync unsafe.Pointer) {
+	v := reflect.ValueOf(x)
+	if v.Kind() != reflect.Ptr || v.IsNil() || v.Elem().Kind() != reflect.Struct {
+		return
+	}
+	size := int(v.Elem().Type().Size())
+	if size == 0 {
+		return
+	}
+	base := unsafe.Pointer(v.Pointer())
+	var done int32
+	go markReleasedHelper(base, size, sync, &done)
+	waitDone(&done)
+}
+
+func markReleasedHelper(base unsafe.Pointer, size int, sync unsafe.Pointer, done *int32) {
+	runtime.RaceWriteRange(base, size)
+	runtime.RaceReleaseMerge(sync)
+	setDone(done)
+}
+
+//go:norace
+func setDone(p *int32) { *p = 1 }
+
+//go:norace
+func waitDone(p *int32) {
+	for *p == 0 {
+		runtime.Gosched()
+	}
+}
